@@ -396,3 +396,21 @@ def mutation_while_iterating(fi):
                 continue
             out.append((lp, hit, ctxt))
     return out
+
+
+def mask_eval(e: ast.AST, atom_value) -> bool:
+    """truth of an element-wise boolean mask expression (&, |, ~, ^, np.logical_and / _or / _not / _xor) under a valuation of its
+    atoms; atom_value(text) -> bool or raises UnknownAtom."""
+    if isinstance(e, ast.BinOp) and isinstance(e.op, (ast.BitAnd, ast.BitOr, ast.BitXor)):
+        a, b = mask_eval(e.left, atom_value), mask_eval(e.right, atom_value)
+        return (a and b) if isinstance(e.op, ast.BitAnd) else ((a or b) if isinstance(e.op, ast.BitOr) else (a != b))
+    if isinstance(e, ast.UnaryOp) and isinstance(e.op, (ast.Invert, ast.Not)):
+        return not mask_eval(e.operand, atom_value)
+    if isinstance(e, ast.Call):
+        d = (dotted(e.func) or "").split(".")[-1]
+        if d in ("logical_and", "logical_or", "logical_xor") and len(e.args) == 2:
+            a, b = mask_eval(e.args[0], atom_value), mask_eval(e.args[1], atom_value)
+            return (a and b) if d == "logical_and" else ((a or b) if d == "logical_or" else (a != b))
+        if d in ("logical_not", "invert") and len(e.args) == 1:
+            return not mask_eval(e.args[0], atom_value)
+    return atom_value(unparse(e))
